@@ -716,6 +716,60 @@ pub fn longrun_ops(cfg: &Cfg, pattern: &str, n: usize) -> Vec<Op> {
             ops.push(Op::Iter);
             return ops.into_iter().filter(|o| s || !matches!(o, Op::Sync)).collect();
         }
+        // an admission contest whose victim walk meets leftovers of invalidated keys (their
+        // Remove ops are queued behind the newcomer's insert): exactly 5 in a row, then a
+        // live victim ("staleskips5"); 3, a live victim, 3 more, a live victim, for a
+        // newcomer of weight 2 ("staleskips33"). n residents of weight 1, capacity n.
+        "staleskips5" | "staleskips33" => {
+            for i in 0..n {
+                ops.push(Op::Ins(i as u8, 1));
+            }
+            ops.push(Op::Sync);
+            for _ in 0..3 {
+                ops.push(Op::Get(n as u8));
+            }
+            ops.push(Op::Sync);
+            if pattern == "staleskips5" {
+                ops.push(Op::Ins(n as u8, 1));
+                for k in 0..5u8 {
+                    ops.push(Op::Inv(k));
+                }
+            } else {
+                ops.push(Op::Ins(n as u8, 2));
+                for k in [0u8, 1, 2, 4, 5, 6] {
+                    ops.push(Op::Inv(k));
+                }
+            }
+            ops.push(Op::Sync);
+            ops.push(Op::Get(n as u8));
+            ops.push(Op::Iter);
+            ops.push(Op::Sync);
+            return ops.into_iter().filter(|o| s || !matches!(o, Op::Sync)).collect();
+        }
+        // warm newcomers (looked up 7 times) against a hot resident set, many distinct
+        // newcomer keys: every admission decision goes through the popularity comparison
+        // with estimates well above 5
+        "warm" => {
+            let cap = cfg.cap.unwrap_or(4) as usize;
+            for i in 0..cap {
+                ops.push(Op::Ins(i as u8, 1));
+                ops.push(Op::Sync);
+            }
+            for c in cap..n {
+                for i in 0..cap {
+                    for _ in 0..3 {
+                        ops.push(Op::Get(i as u8));
+                    }
+                }
+                for _ in 0..7 {
+                    ops.push(Op::Get(c as u8));
+                }
+                ops.push(Op::Sync);
+                ops.push(Op::Ins(c as u8, 1));
+                ops.push(Op::Sync);
+            }
+            return ops.into_iter().filter(|o| s || !matches!(o, Op::Sync)).collect();
+        }
         // one heavy, popular newcomer that needs more victims than the inline capacity of
         // the victim list (8): n unit-weight residents, newcomer of weight n - 1
         "manyvictims" => {
